@@ -192,6 +192,9 @@ static int is_hex(const char *filename)
 
 static const char *get_extension(const char *filename)
 {
+  // An empty name has no extension (and no last character to start at).
+  if (filename[0] == 0) { return filename; }
+
   const char *extension = filename + strlen(filename) - 1;
 
   while (extension != filename)
